@@ -71,6 +71,58 @@ pub fn battery(d: &mut Ddnnf, tt: &TT, rng: &mut Rng) -> Vec<(String, String, St
         let got = guarded(|| { let c = ddnnife_cnf::Cnf::from(&*d); let t = c.to_string(); crate::cnf_props::judge_cnf(&c, &t, tt).err().unwrap_or_else(|| "ok".into()) });
         chk("Cnf::from (Tseitin export)".into(), got, "ok".into());
     }
+    // per-feature table (C04)
+    if tt.count() > 0 {
+        let want: Vec<String> = (1..=n as i32).map(|v| format!("{},{}", v, tt.count_with(&[v]))).collect();
+        let got = guarded(|| d.card_of_each_feature().map(|(v, c, _)| format!("{},{}", v, c)).collect::<Vec<_>>().join(";"));
+        chk("card_of_each_feature".into(), got, want.join(";"));
+    }
+    // t-wise, plain and fitness-guided, t = 2 (C09): only models, every valid pair covered
+    if tt.count() > 0 && n >= 2 && n <= 8 {
+        for line in [String::from("t-wise l 2"), format!("t-wise l 2 f {}", (0..n).map(|i| ((i as i32 % 3) - 1).to_string()).collect::<Vec<_>>().join(" "))] {
+            let l2 = line.clone();
+            let got = guarded(|| d.handle_stream_msg(&l2)).map(|reply| match crate::twise_props::parse_sample(&reply) {
+                Some(sample) => crate::twise_props::judge(tt, 2, &sample).unwrap_or_else(|| "ok".into()),
+                None => format!("unparsable: {}", reply.chars().take(60).collect::<String>()) });
+            chk(line, got, "ok".into());
+        }
+    }
+    // the stream forms of count / sat / core / enum (they go through their own argument handling and caches)
+    if tt.count() > 0 && n >= 1 {
+        let v = 1 + rng.below(n as usize) as i32; let a = if rng.chance(0.5) { v } else { -v };
+        chk(format!("stream: count a {a}"), guarded(|| d.handle_stream_msg(&format!("count a {a}"))), tt.count_with(&[a]).to_string());
+        chk(format!("stream: sat a {a}"), guarded(|| d.handle_stream_msg(&format!("sat a {a}"))), (tt.count_with(&[a]) > 0).to_string());
+        chk("stream: count".into(), guarded(|| d.handle_stream_msg("count")), tt.count().to_string());
+        if tt.count_with(&[a]) > 0 && tt.count_with(&[a]) <= 64 {
+            let total = tt.count_with(&[a]) as usize;
+            let got = guarded(|| {
+                let mut seen: Vec<String> = Vec::new();
+                let mut guard = 0;
+                while seen.len() < total && guard < 4 { let r = d.handle_stream_msg(&format!("enum l {} a {a}", total - seen.len())); seen.extend(r.split(';').filter(|x| !x.trim().is_empty()).map(|c| { let mut c: Vec<i32> = c.split_whitespace().filter_map(|x| x.parse().ok()).collect(); c.sort_by_key(|l| l.abs()); fmt_ints(&c) })); guard += 1; }
+                seen.sort(); seen.join(";") });
+            let mut want: Vec<String> = tt.models_with(&[a]).iter().map(|&k| fmt_ints(&tt.config(k))).collect();
+            want.sort();
+            chk(format!("stream: enum a {a} (full cycle, as a set)"), got, want.join(";"));
+        }
+    }
+    // a read-only look at a marking, then the count again
+    if n >= 1 {
+        let v = 1 + rng.below(n as usize) as i32;
+        let _ = guarded(|| d.get_marked_nodes_clone(&[v]));
+        chk(format!("count a -{v} after inspecting the marking of {v}"), guarded(|| d.execute_query(&[-v]).to_string()), tt.count_with(&[-v]).to_string());
+    }
+    // save and reload: the reloaded model counts like the truth table
+    if tt.count() > 0 && n <= 10 {
+        let path = std::env::temp_dir().join(format!("vh_battery_{}_{}.nnf", std::process::id(), rng.below(1 << 30)));
+        let p2 = path.clone();
+        let got = guarded(|| {
+            ddnnife::parser::persisting::write_ddnnf_to_file(&*d, &p2).map_err(|e| e.to_string())?;
+            let mut r = ddnnife::parser::build_ddnnf(&p2, Some(n));
+            Ok::<String, String>(format!("{} {}", r.number_of_variables, r.rc()))
+        }).and_then(|x| x);
+        let _ = std::fs::remove_file(&path);
+        chk("save ; reload ; count".into(), got, format!("{} {}", n, tt.count()));
+    }
     // seeded sampling: validity
     if tt.count() > 0 {
         let got = guarded(|| match d.uniform_random_sampling(&[], 5, 7) {
